@@ -138,7 +138,7 @@ Lemma do_start_core s h cb p iv fl c' :
   (length (cs s) <= length (cs (fst (do_start s h cb p iv fl))))%nat.
 Proof.
   intros L. unfold do_start. destruct (h_active (geth s h)); [split; auto|].
-  destruct fl as [|[|[|fl]]]; cbn [fst]; unfold getc; cbn [cs upd_h set_hs set_inflight set_hq set_cs];
+  destruct fl as [|[|[|[|fl]]]]; cbn [fst]; unfold getc; cbn [cs upd_h set_hs set_inflight set_hq set_cs];
     rewrite ?app_length, ?app_nth1 by auto; split; auto; lia.
 Qed.
 
@@ -610,9 +610,10 @@ Qed.
 Lemma SI_do_start s h cb p iv fl : SI s -> SI (fst (do_start s h cb p iv fl)).
 Proof.
   intros H. unfold do_start. destruct (h_active (geth s h)) eqn:Ha; [exact H|].
-  destruct fl as [|[|[|fl]]]; cbn [fst].
+  destruct fl as [|[|[|[|fl]]]]; cbn [fst].
   - apply SI_start_ok; auto.
   - exact H.
+  - apply (SI_start_fail s _ (hq s)); auto.
   - apply SI_start_fail; auto.
   - apply SI_start_ok; auto.
 Qed.
